@@ -47,30 +47,61 @@ Definition pf_objective (phi : Q) (zs Ks : vec) (za zb : Q) : Q :=
   let b := if qltb 0 zb then zb / (1 - phi) else 0 in
   qsum (map2 (fun z K => - z * (K - 1) / (1 + phi * (K - 1))) zs Ks) - a + b.
 
-(* vle.xy for two components: x[x < 0] = 1e-16; x /= x.sum(); y = x * Ks; y /= y.sum() *)
+(* vle.xy for two components: x[x < 0] = 1e-16; x /= x.sum(); y = x * Ks; y /= y.sum()
+   (np.seterr(divide='raise', invalid='raise'): a zero sum raises FloatingPointError) *)
 Definition c_1e16 : Q := 2028240960365167 # 20282409603651670423947251286016.
-Definition xy2 (x1 x2 K1 K2 : Q) : (Q * Q) * (Q * Q) :=
+Definition xy2 (x1 x2 K1 K2 : Q) : res ((Q * Q) * (Q * Q)) :=
   let x1 := if qltb x1 0 then c_1e16 else x1 in
   let x2 := if qltb x2 0 then c_1e16 else x2 in
   let sx := x1 + x2 in
+  if qzerob sx then Err EZeroDiv else
   let x1 := x1 / sx in let x2 := x2 / sx in
   let y1 := x1 * K1 in let y2 := x2 * K2 in
   let sy := y1 + y2 in
-  ((x1, x2), (y1 / sy, y2 / sy)).
+  if qzerob sy then Err EZeroDiv else
+  Ok ((x1, x2), (y1 / sy, y2 / sy)).
+
+Definition clipK (k : Q) : Q := if qltb k c_1e16 then c_1e16 else k.
 
 (* xVlogK_iter_2n without reactions; [E], [L] stand for np.exp, np.log; [G x1 x2] is
    pcf_Psat_over_P * f_gamma(x, T) and [Ph y1 y2] is f_phi(y, T, P), both componentwise pairs *)
 Record w2 := mkw2 { wx1 : Q; wx2 : Q; wV : Q; wl1 : Q; wl2 : Q }.
 Definition iter2n (E L : Q -> Q) (G Ph : Q -> Q -> Q * Q) (z1 z2 : Q) (w : w2) : res w2 :=
   let K1 := E (wl1 w) in let K2 := E (wl2 w) in
-  let '((x1, x2), (y1, y2)) := xy2 (wx1 w) (wx2 w) K1 K2 in
+  do xy <- xy2 (wx1 w) (wx2 w) K1 K2;
+  let '((x1, x2), (y1, y2)) := xy in
   let (g1, g2) := G x1 x2 in
   let (p1, p2) := Ph y1 y2 in
-  let K1 := g1 / p1 in let K2 := g2 / p2 in
-  let K1 := if qltb K1 c_1e16 then c_1e16 else K1 in
-  let K2 := if qltb K2 c_1e16 then c_1e16 else K2 in
+  if qzerob p1 || qzerob p2 then Err EZeroDiv else
+  let K1 := clipK (g1 / p1) in let K2 := clipK (g2 / p2) in
   do V <- rr2 z1 z2 K1 K2;
+  if qzerob (1 + V * (K1 - 1)) || qzerob (1 + V * (K2 - 1)) then Err EZeroDiv else
   Ok (mkw2 (z1 / (1 + V * (K1 - 1))) (z2 / (1 + V * (K2 - 1))) V (L K1) (L K2)).
+
+(* ---------- n components: vle.xy and xVlogK_iter (no reactions) ---------- *)
+Definition xyn (x Ks : vec) : res (vec * vec) :=
+  let x := map (fun a => if qltb a 0 then c_1e16 else a) x in
+  let sx := qsum x in
+  if qzerob sx then Err EZeroDiv else
+  let x := vdivs x sx in
+  let y := vmul x Ks in
+  let sy := qsum y in
+  if qzerob sy then Err EZeroDiv else Ok (x, vdivs y sy).
+
+Record wn := mkwn { nx : vec; nV : Q; nl : vec }.
+(* [rrsolve z Ks V] stands for binary.solve_phase_fraction_Rashford_Rice(z, Ks, V, z_light, z_heavy)
+   (a bracketing solver: oracle) *)
+Definition itern (E L : Q -> Q) (G Ph : vec -> vec) (rrsolve : vec -> vec -> Q -> Q) (z : vec) (w : wn) : res wn :=
+  let Ks := map E (nl w) in
+  do xy <- xyn (nx w) Ks;
+  let (x, y) := xy : vec * vec in
+  let g := G x in let p := Ph y in
+  if existsb qzerob p then Err EZeroDiv else
+  let Ks := map clipK (map2 Qdiv g p) in
+  let V0 := if qltb (nV w) 0 then 0 else if qltb 1 (nV w) then 1 else nV w in
+  let V := rrsolve z Ks V0 in
+  if existsb (fun k => qzerob (1 + V * (k - 1))) Ks then Err EZeroDiv else
+  Ok (mkwn (map2 (fun zi k => zi / (1 + V * (k - 1))) z Ks) V (map L Ks)).
 
 (* ---------- comparison helpers ---------- *)
 Definition rr2_check (z1 z2 K1 K2 : Q) (expect : option Q) : bool :=
@@ -88,3 +119,17 @@ Definition iter2n_check (r : res w2) (expect : option w2) : bool :=
   | Err _, None => true
   | _, _ => false
   end.
+Definition wn_eqb (a b : wn) : bool := vapproxb (nx a) (nx b) && qapproxb (nV a) (nV b) && vapproxb (nl a) (nl b).
+Definition itern_check (r : res wn) (expect : option wn) : bool :=
+  match r, expect with
+  | Ok a, Some b => wn_eqb a b
+  | Err _, None => true
+  | _, _ => false
+  end.
+(* rational stand-ins for exp / log and for the activity / fugacity-coefficient models *)
+Definition std_E (a b : Q) (l : Q) : Q := (a + l) / b.
+Definition std_L (c d : Q) (k : Q) : Q := (k - c) / d.
+Definition std_G2 (pc1 pc2 g0 g1 : Q) (x1 x2 : Q) : Q * Q := (pc1 * (g0 + g1 * x1), pc2 * (g0 + g1 * x2)).
+Definition std_P2 (p0 p1 : Q) (y1 y2 : Q) : Q * Q := (p0 + p1 * y1, p0 + p1 * y2).
+Definition std_Gn (pc : vec) (g0 g1 : Q) (x : vec) : vec := map2 (fun p xi => p * (g0 + g1 * xi)) pc x.
+Definition std_Pn (p0 p1 : Q) (y : vec) : vec := map (fun yi => p0 + p1 * yi) y.
